@@ -3,6 +3,7 @@ import copy
 
 from harness.props.recorder_common import RecorderProp, ALL_OPTS
 from harness import recorder_gen as rg
+from harness import threads_c04 as T
 
 
 class C01(RecorderProp):
@@ -32,7 +33,42 @@ class C01(RecorderProp):
             case['fresh_before_last'] = True        # replay by another recorder
         return case
 
+    THREADS = {'quick': 40, 'thorough': 600}
+
+    def generate(self, rng, tier):
+        # worker threads inside the operation (no theorem: partial) - inputs are looked up by key, outputs use thread-disjoint
+        # aliases; record and replay both run under scheduler-chosen interleavings
+        return super(C01, self).generate(rng, tier) + [T.gen_record_replay(rng) for _ in range(self.THREADS[tier])]
+
+    def run_impl(self, case):
+        if case.get('kind') == 'threads':
+            return T.run_record_replay_threads(case)
+        return super(C01, self).run_impl(case)
+
+    def sample_repr(self, case):
+        return case if case.get('kind') == 'threads' else super(C01, self).sample_repr(case)
+
+    def features(self, case, impl):
+        if case.get('kind') == 'threads':
+            return ['threads:record+replay', 'threads:workers=%d' % len(case['workers'])]
+        return super(C01, self).features(case, impl)
+
     def oracle(self, case, impl):
+        if case.get('kind') == 'threads':
+            fails = []
+            want = [[['ret', ['value', c['arg'], c['arg'] * 7]] if c['site'] == 'in' else ['ret', ['ack', wi, c['arg']]] for c in calls]
+                    for wi, calls in enumerate(case['workers'])]
+            for phase in ('record', 'replay'):
+                r = impl[phase]
+                if r['outcome'] != 'finished' or r['main'] not in ([['ret', 'done']], [['ret', 'played']]):
+                    fails.append('threads %s: run ended %s / %r (schedules %r)' % (phase, r['outcome'], r['main'], impl['_choices']))
+                if r['results'] != want:
+                    fails.append('threads %s: worker calls were handed %r, recorded run produced %r (schedules %r)'
+                                 % (phase, r['results'], want, impl['_choices']))
+            if impl['outputs'].get('playback') != impl['outputs'].get('recorded'):
+                fails.append('threads: outputs captured during replay %r differ from the recorded outputs %r'
+                             % (impl['outputs'].get('playback'), impl['outputs'].get('recorded')))
+            return fails
         fails = []
         for i, (run, r) in enumerate(zip(case['runs'], impl)):
             if run['run'] != 'play' or i == 0:
@@ -68,10 +104,14 @@ class C01(RecorderProp):
         return None
 
     def nontrivial(self, case, impl):
+        if case.get('kind') == 'threads':
+            return True
         return any(r.get('saved') and 'meta' in r['saved'] and r['saved']['meta']['incomplete'] is False
                    and (r['saved']['data']['inputs'] or len(r['saved']['data']['named']) > 1) for r in impl)
 
     def shrink(self, case):
+        if case.get('kind') == 'threads':
+            return
         # keep (op, play) pairs in step: statements are dropped from both
         for c in super(C01, self).shrink(case):
             runs = c['runs']
